@@ -276,6 +276,17 @@ func checkC06(c *Check) {
 					nsites++
 					tv := info.Types[x.Args[0]]
 					if tv.Value == nil {
+						// a verdict computed into a local first: constant on every path of the graph?
+						vals, allConst := callArgConsts(c, fs, "ncg/revocation/result.NewServerResult", 0)
+						if allConst && len(vals) > 0 {
+							for _, v := range vals {
+								if v == resOK || v == resNonRevokable {
+									ngood++
+									c.add("O-C06.1", "good NewServerResult call is in the wrapper", "NewServerResult(OK/NonRevokable) is called only inside the error->verdict wrapper, under its nil / NoServerError guard (C04 wrapper table)", isInWrapper(c, fs), c.P.pos(x.Pos()))
+								}
+							}
+							return true
+						}
 						c.add("O-C06.1", "NewServerResult verdict is constant", "NewServerResult is called with a constant verdict", false, c.P.pos(x.Pos()))
 						return true
 					}
@@ -511,6 +522,37 @@ func litResultConsts(c *Check, fs *FuncSrc, pos token.Pos) (vals []int64, allCon
 			for _, l := range e.Labels {
 				if l.Kind == "store" || l.Kind == "lstore" || l.Kind == "assign" {
 					visit(l.T2)
+				}
+			}
+		}
+	}
+	for k := range seen {
+		vals = append(vals, k)
+	}
+	return vals, allConst && n > 0
+}
+
+// callArgConsts: on the graph of fs with the callee left opaque, the distinct
+// constant values argument idx of every call of callee takes, and whether it is
+// a constant at every such call.
+func callArgConsts(c *Check, fs *FuncSrc, callee string, idx int) (vals []int64, allConst bool) {
+	pg := c.pgOfNI(c.P.abbrev(fs.Obj.FullName()), callee)
+	if pg == nil || pg.Trunc {
+		return nil, false
+	}
+	seen := map[int64]bool{}
+	allConst = true
+	n := 0
+	for _, s := range pg.States {
+		for _, e := range s.Out {
+			for _, l := range e.Labels {
+				if l.Kind == "call" && l.T != nil && l.T.Name == callee && idx < len(l.T.Args) {
+					n++
+					if k, ok := intConst(l.T.Args[idx]); ok {
+						seen[k] = true
+					} else {
+						allConst = false
+					}
 				}
 			}
 		}
